@@ -74,6 +74,8 @@ pub struct Workload {
     success: HashSet<AnyWorkId>,
     error: Option<Error>,
     skip_features: bool,
+    // non-export glyphs seen before glyph order was done; glyph order may still replace them
+    deferred_non_export: Vec<GlyphName>,
     // we count the number of errors encountered but only store the first we see
     n_failures: usize,
 
@@ -148,6 +150,7 @@ impl Workload {
             jobs_pending: Default::default(),
             count_pending: Default::default(),
             skip_features,
+            deferred_non_export: Default::default(),
             timer,
         };
 
@@ -349,6 +352,18 @@ impl Workload {
             .map(|job| job.running)
             .unwrap_or(true);
 
+        // Glyph order may store an exported glyph under this name (a synthesized .notdef, a
+        // derived contour glyph), so until it is done 'non-export' is not final. Stay blocked
+        // (Access::Unknown) and decide again when glyph order succeeds.
+        if !glyph.emit_to_binary
+            && self
+                .jobs_pending
+                .contains_key(&AnyWorkId::Fe(FeWorkIdentifier::GlyphOrder))
+        {
+            self.deferred_non_export.push(glyph.name.clone());
+            return;
+        }
+
         // If the inputs to the BE glyph didn't change it won't be pending
         let Some(be_job) = self.jobs_pending.get_mut(&be_id) else {
             return;
@@ -409,6 +424,11 @@ impl Workload {
 
         // When glyph order finalizes, add BE work for any new glyphs
         if let AnyWorkId::Fe(FeWorkIdentifier::GlyphOrder) = success {
+            // what glyph order left non-export really is; anything it replaced gets a BE job
+            for glyph_name in std::mem::take(&mut self.deferred_non_export) {
+                self.update_be_glyph_work(fe_root, glyph_name);
+            }
+
             let preliminary_glyph_order = fe_root.preliminary_glyph_order.get();
             let final_glyph_order = fe_root.glyph_order.get();
             for glyph_name in final_glyph_order.difference(&preliminary_glyph_order) {
